@@ -19,6 +19,8 @@ def row(sid):
     how = ""
     if m.get("obsolete"):
         return f"| {sid} | `{m.get('site', '')}` | n/a | harmless now: {m['obsolete']} |"
+    if m.get("not_live"):
+        return f"| {sid} | `{m.get('site', '')}` | n/a | no request can show it: {m['not_live']} |"
     if caught:
         streams = sorted({re.sub(r"-\d+(-\d+)?\.json.*$", "", l.split("replay=")[1].split("/")[-1]).split("-", 1)[1] for l in viol})
         nf = any("no-failing-input-found" in l for l in viol)
@@ -32,7 +34,7 @@ def main():
     rows = ["| seed | site of the change | caught by `check <prop> quick` | how / why not |", "|---|---|---|---|"] + [row(s) for s in sids if os.path.exists(os.path.join(ROOT, "seeded", s, "meta.json"))]
     n = sum(1 for r in rows[2:] if "| yes |" in r)
     na = sum(1 for r in rows[2:] if "| n/a |" in r)
-    txt = "\n".join(rows) + f"\n\n{n} of {len(rows)-2-na} seeded changes which break a property on the current tree are caught by the quick check of their property ({na} more became harmless through a later fix and are not flagged).\n"
+    txt = "\n".join(rows) + f"\n\n{n} of {len(rows)-2-na} seeded changes which break a property on the current tree are caught by the quick check of their property ({na} more became harmless through a later fix, or change code no request can reach, and are not flagged).\n"
     p = os.path.join(ROOT, "DESIGN.md")
     s = open(p).read()
     if "SEEDTABLE\n" in s and "<!-- SEEDTABLE-BEGIN -->" not in s:
